@@ -6,7 +6,7 @@ cd /repo || exit 2
 if ! git diff --quiet; then echo "/repo has uncommitted changes"; exit 2; fi
 git apply "$d/patch.diff" || { echo "patch does not apply"; exit 2; }
 trap 'git -C /repo checkout -- . ; git -C /repo clean -fdq -- . >/dev/null 2>&1' EXIT
-cd /verif
+cd /verif; mkdir -p /tmp/seedverif/contracts; cp /verif/props.json /tmp/seedverif/; cp /verif/contracts/stdlib.vc /tmp/seedverif/contracts/; cp /verif/known_findings.json /tmp/seedverif/ 2>/dev/null; cp -r /verif/baseline /tmp/seedverif/ 2>/dev/null
 for p in "$@"; do
   echo "--- $p on $(basename $d)"
   GOVC_VERIF=/tmp/seedverif bin/govc check "$p" 2>&1 | grep -E "VIOLATION|UNDECIDED|ENGINE-ERROR|^property" | cut -c1-260
